@@ -207,7 +207,7 @@ def branch_state(conds):
     return tr, ty
 
 
-def check_wrapper_dispatch(repo, f, R, rule="DISPATCH", must_forward=()):
+def check_wrapper_dispatch(repo, f, R, rule="DISPATCH", must_forward=(), depth=0):
     """The dispatch of a public wrapper: with a transformation -> construct_array_lincomb (whatever the coordinate types);
     without one: all cartesian -> cartesian; all spherical -> spherical; else mix; all sibling calls forward identical
     keywords, each the wrapper's own parameter."""
@@ -226,6 +226,24 @@ def check_wrapper_dispatch(repo, f, R, rule="DISPATCH", must_forward=()):
             if isinstance(recv, ast.Call):
                 sites.append((node, recv))
     sites.sort(key=lambda c: c[0].lineno)
+    if not sites and depth < 1:
+        # the dispatch may live in a private helper of the same module that receives the wrapper's parameters under their own names
+        helpers = []
+        for node in walk_no_nested(fn):
+            if isinstance(node, ast.Call) and isinstance(node.func, ast.Name) and node.func.id.startswith("_"):
+                g = repo.resolve_name(f.module, node.func.id, f)
+                if hasattr(g, "node") and g.module is f.module and any(
+                        isinstance(n2, ast.Call) and isinstance(n2.func, ast.Attribute) and n2.func.attr.startswith("construct_array_") for n2 in ast.walk(g.node)):
+                    helpers.append((node, g))
+        if len(helpers) == 1:
+            call, g = helpers[0]
+            bound = dict(zip(g.params, [ast.unparse(a) for a in call.args]))
+            bound.update({k.arg: ast.unparse(k.value) for k in call.keywords if k.arg})
+            same = all(bound.get(p_) == p_ for p_ in g.params)
+            R.check(same, rule, f.site, f"{g.name}(" + ", ".join(f"{k}={v}" for k, v in bound.items()) + ")",
+                    f"the dispatch helper {g.name} must receive the wrapper's own parameters", where=f.where(call),
+                    expected={p_: p_ for p_ in g.params}, found=bound)
+            return check_wrapper_dispatch(repo, g, R, rule, must_forward, depth=depth + 1)
     if len(sites) < 4:
         raise AnalysisError(rule, f"expected at least the 4 assembly calls in {f.qualname}, found {len(sites)}", f.where())
     classes = {ast.unparse(r.func) for _c, r in sites}
